@@ -115,6 +115,9 @@ def family(tier='quick', seed=0):
                              {('a', 'x'): ('a', 'b'), ('a', 'y'): ('g',), ('b', 'x'): ('b', 'g'), ('b', 'y'): ('a',), ('g', 'x'): ('g',), ('g', 'y'): ('g',)},
                              absorbing=['g'], init=['a', 'b'])
     F.append(POSkel('p322-absorbing', m, {('x', 'a'): ('o1',), ('x', 'b'): ('o1', 'o2'), ('x', 'g'): ('o2',), ('y', 'a'): ('o1', 'o2'), ('y', 'b'): ('o2',), ('y', 'g'): ('o1', 'o2')}))
+    # falsy labels everywhere (state 0, action '', observation 0), start state outside the initial support
+    m = uniform_actions_skel('m222f', [0, 1], ['', 'go'], {(0, ''): (0,), (1, ''): (1, 0), (0, 'go'): (1,), (1, 'go'): (0, 1)}, init=[1])
+    F.append(POSkel('p222-falsy-labels', m, {('', 0): (0,), ('', 1): (0, 1), ('go', 0): (1,), ('go', 1): (0, 1)}))
     if tier == 'thorough':
         m = uniform_actions_skel('m323', ['a', 'b', 'c'], ['x', 'y'],
                                  {('a', 'x'): ('a', 'b', 'c'), ('a', 'y'): ('c',), ('b', 'x'): ('b',), ('b', 'y'): ('a', 'c'), ('c', 'x'): ('c', 'a'), ('c', 'y'): ('b',)}, init=['a'])
